@@ -42,6 +42,7 @@ def _run_tree(args):
     ed = cli.run_breadlog(os.path.join(proj, "Breadlog.yaml"), check=False, cwd=work, tmpdir=tmp, timeout=600)
     if ed.panicked or ed.timed_out:
         return [{"class": "cli-crash", "detail": "edit run crashed: %r %s" % (ed, ed.stderr[-300:]), "label": None, "code": ""}]
+    edit_failed_range = ed.exit != 0 and any("4294967295" in c[1] for c in cases)
     total_missing = 0
     for n, i in names.items():
         ci, code, exp, label = cases[i]
@@ -59,6 +60,8 @@ def _run_tree(args):
             fails.append({"class": "check-unusable-report", "detail": "in-process unusable entries at %r, --check warned about %r" % (
                 want_un, sorted(unusable_by_file.get(n, []))), "label": label, "code": code})
             continue
+        if edit_failed_range:
+            continue       # range exhausted: nothing may be inserted; C01 judges that
         new = open(os.path.join(proj, "src", n), "rb").read()
         strip = cli.token_strip(b, new)
         if strip is None:
@@ -91,9 +94,12 @@ def bind(tuples, build_one, v, prefix="binding"):
         if r[0] != "ok":
             skipped += 1
             continue
-        by_cfg.setdefault(c[0], ([], []))
-        by_cfg[c[0]][0].append(c)
-        by_cfg[c[0]][1].append(r[1])
+        # files that already carry the largest ID exhaust the range for the whole tree (the run then fails, by design):
+        # they get a tree of their own so that the other cases are still edited
+        key = c[0] + (100 if "4294967295" in c[1] else 0)
+        by_cfg.setdefault(key, ([], []))
+        by_cfg[key][0].append(c)
+        by_cfg[key][1].append(r[1])
     work = scratch_dir("bind")
     jobs = []
     for ci, (cs, es) in sorted(by_cfg.items()):
@@ -102,7 +108,7 @@ def bind(tuples, build_one, v, prefix="binding"):
         for k in range(0, len(cs), step):
             jobs.append((ci * 1000 + k // step, cs[k:k + step], es[k:k + step], work))
     # cfg index is recovered inside _run_tree by integer division, so encode it back
-    jobs = [((j[0] // 1000), j[1], j[2], os.path.join(work, "j%d" % n)) for n, j in enumerate(jobs)]
+    jobs = [((j[0] // 1000) % 100, j[1], j[2], os.path.join(work, "j%d" % n)) for n, j in enumerate(jobs)]
     for j in jobs:
         os.makedirs(j[3])
     nf = 0
